@@ -604,7 +604,7 @@ def session_judge(hist, obs, model=None):
         s = st[1] if st[0] in ENTRIES else hist[st[1]][1]
         src = st[0] if st[0] in ENTRIES else hist[st[1]][0]
         base = {"input": {"history": [_step_text(x) for x in hist], "step": i}, "session": hist,
-                "oracle": "independent", "entry": src}
+                "oracle": "independent", "entry": src, "carries_history": True}
         before = "; ".join(_step_text(x) for x in hist[:i]) or "nothing"
         if st[0] in ENTRIES:
             if e[0] == "reject" and o[0] == "ok":
